@@ -152,18 +152,24 @@ func genC20HistProg(rng *rand.Rand) []c20op {
 func TestC20(t *testing.T) {
 	r := vf.Start(t, "C20", vf.Exploration)
 	defer r.Finish()
-	r.SetRule("case = PRNG program of 8-24 steps over 3 authenticated clients (each may turn malicious): honest sends/acks/clears/re-attach/detach mixed with: stale and future session_seqno, message signed by another client (authentic but not this stream's identity), replay of another client's valid message, claimed-self but signed with another key, tampered data/signature, missing/empty signature, hash type 0, other signing context, nil/empty message, unsolicited and duplicate acks, unsolicited clears, second Init, empty body, and calls whose first request is not a valid Init (non-Init, seqno!=0, self, bad id, empty id). A second family of programs (8-20+ steps) adds HISTORY-dependent forgeries: submissions derived from a message the server already verified and accepted from the same client (its signature bytes + sender with a new / bit-flipped / appended / truncated payload, another hash type, a pub_key field of another client or of itself plus a new payload, re-attributed to another client; the payload under the signature of another accepted message and vice versa; the payload re-signed by another key or under another context; extended signature), source = latest / previous-but-one / third-latest accepted message of this call, of any earlier call x->y or of any call of x, submitted immediately after the source, after the partner acked it, after the partner or the sender re-attached (new epoch / new call), after an exact replay of the own message (authentic, may be forwarded), after further honest sends or unrelated steps; every such program holds at least one original->variant motif. The instance is quiescent before every submission, so the epoch at submission is exact. Oracle: every RecvMsg in the outbox of a call Q->P equals (byte for byte) a message that the harness submitted earlier on a call P->Q, that is honest (signed by P = stream identity under the signaling context, valid hash) and whose session_seqno == epoch at submission; future seqno => the call ends with an error; AckMsg(s) to P only if P's message s was delivered to Q and Q acked it afterwards (at most once per delivery); ClearMsg(s) to Q only if s was delivered to Q and P cleared it afterwards; a call with an invalid first request ends with an error and leaves VerifStateSizes unchanged. Non-trivial = at least one honest message forwarded and at least one hostile step executed; distinct = program")
+	r.SetRule("case = PRNG program of 8-24 steps over 3 authenticated clients (each may turn malicious): honest sends/acks/clears/re-attach/detach mixed with: stale and future session_seqno, message signed by another client (authentic but not this stream's identity), replay of another client's valid message, claimed-self but signed with another key, tampered data/signature, missing/empty signature, hash type 0, other signing context, nil/empty message, unsolicited and duplicate acks, unsolicited clears, second Init, empty body, and calls whose first request is not a valid Init (non-Init, seqno!=0, self, bad id, empty id). A second family of programs (8-20+ steps) adds HISTORY-dependent forgeries: submissions derived from a message the server already verified and accepted from the same client (its signature bytes + sender with a new / bit-flipped / appended / truncated payload, another hash type, a pub_key field of another client or of itself plus a new payload, re-attributed to another client; the payload under the signature of another accepted message and vice versa; the payload re-signed by another key or under another context; extended signature), source = latest / previous-but-one / third-latest accepted message of this call, of any earlier call x->y or of any call of x, submitted immediately after the source, after the partner acked it, after the partner or the sender re-attached (new epoch / new call), after an exact replay of the own message (authentic, may be forwarded), after further honest sends or unrelated steps; every such program holds at least one original->variant motif. A third family (8-18+ steps) relies on the harness streams being WIRE-FAITHFUL (every request is marshalled at submission and decoded by the server side with UnmarshalVT into whatever object the server passes to Recv/RecvTo, without Reset; every response is marshalled at Send and the outbox keeps the decoded copy): (a) field-presence sequences first>second on one stream, first = complete current send / two sends / ack / clear, second = a request lacking fields on the wire: session_seqno 0 (an older epoch) on a send / ack / clear, message seqno 0, SendMsg without signature / data / sender / hash type / signature bytes, empty / seqno-only / nil SendMsg, zero-length packet, seqno without body; with and without quiescence in between; (b) the attribution matrix claimed from_peer_id {stream identity, other client, non-client X} x real signer {stream identity, other client, X} x pub_key field {absent, stream identity, signer, other client, X2, garbage}, over a fresh payload or the payload of a message accepted earlier on the call: authentic iff from = signer = stream identity. The instance is quiescent before every submission (bursts: no call starts or ends in between), so the epoch at submission is exact. Oracle: every RecvMsg in the outbox of a call Q->P equals (byte for byte) a message that the harness submitted earlier on a call P->Q, that is honest (signed by P = stream identity under the signaling context, valid hash) and whose session_seqno == epoch at submission, and no message is forwarded more often than such a copy was submitted; future seqno => the call ends with an error; AckMsg(s) to P only if P's message s was delivered to Q and Q acked it afterwards with the then-current session_seqno (at most once per delivery); ClearMsg(s) to Q only if s was delivered to Q and P cleared it afterwards with the current session_seqno; a call with an invalid first request ends with an error and leaves VerifStateSizes unchanged. Non-trivial = at least one honest message forwarded and at least one hostile step executed; distinct = program")
 	r.Assume("honest messages are built with signaling.NewSessionMsg; honest/forged is known by construction, never inferred from the server's reaction")
 	rng := r.Rand("c20")
 	pool := keys.Pool(rng, 3)
 	n0 := r.N(300, 5000)
 	nh := r.N(240, 3000)
-	n := n0 + nh
+	nw := r.N(220, 3000)
+	n := n0 + nh + nw
 	progs := make([][]c20op, n)
 	hrng := r.Rand("c20-history")
-	for i := n0; i < n; i++ {
+	for i := n0; i < n0+nh; i++ {
 		progs[i] = genC20HistProg(hrng)
 	}
+	wrng := r.Rand("c20-wire")
+	for i := n0 + nh; i < n; i++ {
+		progs[i] = genC20WireProg(wrng)
+	}
+	extra := keys.Pool(r.Rand("c20-nonclients"), 2)
 	for i := 0; i < n0; i++ {
 		l := 8 + rng.IntN(17)
 		for k := 0; k < l; k++ {
@@ -185,7 +191,7 @@ func TestC20(t *testing.T) {
 		if i%16 == 0 {
 			r.Begin(fmt.Sprintf("batch around case %d: %v", i, progs[i]))
 		}
-		runC20(r, pool, i, progs[i])
+		runC20(r, pool, extra, i, progs[i])
 	})
 	quiesceEvidence(r)
 }
@@ -229,7 +235,7 @@ func (s *c20state) ensure(x, y int) bool {
 	return true
 }
 
-func runC20(r *vf.Run, pool []*keys.Identity, idx int, prog []c20op) {
+func runC20(r *vf.Run, pool, extra []*keys.Identity, idx int, prog []c20op) {
 	var ps []string
 	for _, o := range prog {
 		ps = append(ps, o.String())
@@ -247,7 +253,11 @@ func runC20(r *vf.Run, pool []*keys.Identity, idx int, prog []c20op) {
 		key := string(m.GetSignedMsg().GetData())
 		w.subs[key] = append(w.subs[key], &subRec{call: c, clock: clk, sessSeqno: sess, epochAt: epoch, epochOK: true, msg: m.CloneVT(), honest: honest, class: class})
 		w.logf("%s submits SendMsg[%s](seq %d) session_seqno=%d (epoch %d)", w.cstr(c), class, m.GetSeqno(), sess, epoch)
-		r.Count("submitted_"+class, 1)
+		cc := class
+		if i := strings.IndexByte(cc, ':'); i >= 0 {
+			cc = cc[:i]
+		}
+		r.Count("submitted_"+cc, 1)
 		if honest && !strings.HasPrefix(class, "honest-replay") {
 			// distinct originals only: a replay is the same envelope again
 			cp := m.CloneVT()
@@ -331,7 +341,192 @@ func runC20(r *vf.Run, pool []*keys.Identity, idx int, prog []c20op) {
 			continue
 		}
 		e, _, _ := w.h.Srv.VerifSessionEpoch(pidS(x), pidS(y))
-		r.Count("op_"+o.kind, 1)
+		if !strings.HasPrefix(o.kind, "wire:") && !strings.HasPrefix(o.kind, "attr:") {
+			r.Count("op_"+o.kind, 1) // the two matrix families are counted as Distinct cells instead
+		}
+		if strings.HasPrefix(o.kind, "wire:") {
+			// field-presence sequence first>second on the stream c
+			r.Count("op_wire", 1)
+			spec := strings.TrimPrefix(o.kind, "wire:")
+			burst := strings.HasSuffix(spec, "/burst")
+			spec = strings.TrimSuffix(spec, "/burst")
+			fs := strings.SplitN(spec, ">", 2)
+			r.Distinct("c20_wire_first_x_second", spec)
+			hostile++
+			lastRecv := func() (uint64, bool) {
+				var seq uint64
+				found := false
+				for _, it := range c.Outbox() {
+					if it.Kind == "recv" {
+						seq, found = it.U, true
+					}
+				}
+				return seq, found
+			}
+			switch fs[0] {
+			case "send", "send2":
+				for i := 0; i < len(fs[0])-3; i++ {
+					m := g7sig.Honest(pool[x], payload(), nextSeq(x))
+					s.lastSent[k] = m.Seqno
+					submitMsg(c, e, e, m, true, "honest")
+				}
+			case "ack":
+				if seq, ok := lastRecv(); ok {
+					w.submitAck(c, e, e, seq)
+					s.acked[k] = append(s.acked[k], seq)
+				} else {
+					s.unsol++
+					w.submitAck(c, e, e, s.unsol)
+				}
+			case "clear":
+				if s.lastSent[k] != 0 {
+					w.submitClear(c, e, e, s.lastSent[k])
+				} else {
+					s.unsol++
+					w.submitClear(c, e, e, s.unsol)
+				}
+			}
+			if burst {
+				r.Count("c20_wire_burst", 1)
+			} else {
+				if !w.quiesce() {
+					r.Case(sig, false)
+					return
+				}
+				if c = s.live(x, y); c == nil {
+					continue
+				}
+				e, _, _ = w.h.Srv.VerifSessionEpoch(pidS(x), pidS(y))
+			}
+			fresh := func() *signaling.SessionMsg { return g7sig.Honest(pool[x], payload(), nextSeq(x)) }
+			switch fs[1] {
+			case "send-sess0":
+				submitMsg(c, 0, e, fresh(), true, "honest-stale-epoch")
+			case "send-stale":
+				submitMsg(c, uint64(o.n)%e, e, fresh(), true, "honest-stale-epoch")
+			case "send-msgseq0":
+				// authentic and current; only the message's own seqno is the zero value
+				submitMsg(c, e, e, g7sig.Honest(pool[x], payload(), 0), true, "honest-msg-seqno-0")
+			case "send-nosig":
+				m := fresh()
+				m.SignedMsg.Signature = nil
+				submitMsg(c, e, e, m, false, "unsigned")
+			case "send-nodata":
+				m := fresh()
+				m.SignedMsg.Data = nil
+				submitMsg(c, e, e, m, false, "empty-data")
+			case "send-nofrom":
+				m := fresh()
+				m.SignedMsg.FromPeerId = ""
+				submitMsg(c, e, e, m, false, "no-sender")
+			case "send-nohash":
+				m := fresh()
+				m.SignedMsg.Signature.HashType = 0
+				submitMsg(c, e, e, m, false, "hash-type-0")
+			case "send-nosigdata":
+				m := fresh()
+				m.SignedMsg.Signature.SigData = nil
+				submitMsg(c, e, e, m, false, "empty-signature")
+			case "send-empty":
+				submitMsg(c, e, e, &signaling.SessionMsg{}, false, "empty-message")
+			case "send-seqonly":
+				submitMsg(c, e, e, &signaling.SessionMsg{Seqno: nextSeq(x)}, false, "empty-message")
+			case "send-emptysigned":
+				submitMsg(c, e, e, &signaling.SessionMsg{SignedMsg: &peer.SignedMsg{}, Seqno: nextSeq(x)}, false, "empty-message")
+			case "send-nil":
+				submitMsg(c, e, e, nil, false, "nil-message")
+			case "ack-sess0":
+				if seq, ok := lastRecv(); ok {
+					w.submitAck(c, 0, e, seq)
+				} else {
+					s.unsol++
+					w.submitAck(c, 0, e, s.unsol)
+				}
+			case "ack0-sess0":
+				w.submitAck(c, 0, e, 0)
+			case "clear-sess0":
+				if s.lastSent[k] != 0 {
+					w.submitClear(c, 0, e, s.lastSent[k])
+				} else {
+					w.submitClear(c, 0, e, 0)
+				}
+			case "empty-packet":
+				c.SubmitWire(&signaling.SessionRequest{}, nil)
+				w.logf("%s submits a zero-length packet", w.cstr(c))
+			case "seqno-only":
+				c.Submit(&signaling.SessionRequest{SessionSeqno: e})
+				w.logf("%s submits a request with session_seqno=%d and no body", w.cstr(c), e)
+			default:
+				panic("unknown wire kind " + o.kind)
+			}
+			if !w.quiesce() {
+				r.Case(sig, false)
+				return
+			}
+			continue
+		}
+		if strings.HasPrefix(o.kind, "attr:") {
+			// attribution matrix: claimed sender x real signer x pub_key field
+			r.Count("op_attr", 1)
+			p := strings.Split(strings.TrimPrefix(o.kind, "attr:"), "/")
+			who := func(n string) *keys.Identity {
+				switch n {
+				case "self":
+					return pool[x]
+				case "other":
+					return pool[z]
+				case "x":
+					return extra[0]
+				case "x2":
+					return extra[1]
+				}
+				panic("unknown identity " + n)
+			}
+			signer := who(p[1])
+			var pub []byte
+			switch p[2] {
+			case "none":
+			case "signer":
+				pub = g7sig.PubKeyBytes(signer)
+			case "garbage":
+				pub = g7sig.PubKeyBytes(signer)
+				switch o.n % 3 {
+				case 0:
+					pub = pub[:1+o.n%(len(pub)-1)]
+				case 1:
+					pub[0] ^= 0x7f
+				case 2:
+					pub = []byte{byte(o.n), byte(o.n >> 8)}
+				}
+			default:
+				pub = g7sig.PubKeyBytes(who(p[2]))
+			}
+			data := payload()
+			if len(p) > 3 && p[3] == "old" {
+				if l := s.histCall[c]; len(l) > 0 {
+					data = append([]byte(nil), l[len(l)-1].GetSignedMsg().GetData()...)
+					r.Count("c20_attr_over_accepted_payload", 1)
+				}
+			}
+			honest := c20attrHonest(o.kind)
+			m := g7sig.Attributed(who(p[0]).String(), signer, pub, data, nextSeq(x))
+			cell := strings.Join(p[:3], "/")
+			r.Distinct("c20_attr_from_x_signer_x_pubkey", cell)
+			if honest {
+				submitMsg(c, e, e, m, true, "honest-attr:"+cell)
+			} else {
+				hostile++
+				submitMsg(c, e, e, m, false, "forged-attr:"+cell)
+				if p[0] == "self" && p[2] == "signer" {
+					r.Count("c20_attr_claims_self_foreign_signer_with_its_pubkey", 1)
+				}
+			}
+			if !w.quiesce() {
+				r.Case(sig, false)
+				return
+			}
+			continue
+		}
 		if strings.HasPrefix(o.kind, "hist") {
 			// a submission derived from a message the server accepted earlier from x:
 			// scope (bits 4-5 of n) = this call / any call x->y / any call of x;
@@ -495,29 +690,29 @@ func runC20(r *vf.Run, pool []*keys.Identity, idx int, prog []c20op) {
 			if !found {
 				continue
 			}
-			w.submitAck(c, e, seq)
+			w.submitAck(c, e, e, seq)
 			s.acked[k] = append(s.acked[k], seq)
 		case "ack-unsol":
 			hostile++
 			s.unsol++
-			w.submitAck(c, e, s.unsol)
+			w.submitAck(c, e, e, s.unsol)
 		case "ack-dup":
 			hostile++
 			if len(s.acked[k]) == 0 {
 				s.unsol++
-				w.submitAck(c, e, s.unsol)
+				w.submitAck(c, e, e, s.unsol)
 			} else {
-				w.submitAck(c, e, s.acked[k][o.n%len(s.acked[k])])
+				w.submitAck(c, e, e, s.acked[k][o.n%len(s.acked[k])])
 			}
 		case "clear":
 			if s.lastSent[k] == 0 {
 				continue
 			}
-			w.submitClear(c, e, s.lastSent[k])
+			w.submitClear(c, e, e, s.lastSent[k])
 		case "clear-unsol":
 			hostile++
 			s.unsol++
-			w.submitClear(c, e, s.unsol)
+			w.submitClear(c, e, e, s.unsol)
 		case "init-again":
 			hostile++
 			c.Submit(g7sig.ReqInit(e, pidS(y)))
@@ -548,23 +743,36 @@ func runC20(r *vf.Run, pool []*keys.Identity, idx int, prog []c20op) {
 	}
 }
 
-func (w *world) submitAck(c *g7sig.Call, sess, seq uint64) {
+// submitAck submits AckMsg(seq) with session_seqno sess while the server's
+// epoch is epoch. Only an ack for the CURRENT epoch can explain an AckMsg the
+// server later sends to the partner: a request for an older epoch must have no
+// effect.
+func (w *world) submitAck(c *g7sig.Call, sess, epoch, seq uint64) {
 	clk := c.Submit(g7sig.ReqAck(sess, seq))
-	if w.acksSub[c] == nil {
-		w.acksSub[c] = map[uint64][]int64{}
+	if sess == epoch {
+		if w.acksSub[c] == nil {
+			w.acksSub[c] = map[uint64][]int64{}
+		}
+		w.acksSub[c][seq] = append(w.acksSub[c][seq], clk)
+	} else {
+		w.r.Count("acks_submitted_for_older_epoch", 1)
 	}
-	w.acksSub[c][seq] = append(w.acksSub[c][seq], clk)
-	w.logf("%s submits AckMsg(%d) session_seqno=%d", w.cstr(c), seq, sess)
+	w.logf("%s submits AckMsg(%d) session_seqno=%d (epoch %d)", w.cstr(c), seq, sess, epoch)
 	w.r.Count("acks_submitted", 1)
 }
 
-func (w *world) submitClear(c *g7sig.Call, sess, seq uint64) {
+// submitClear: as submitAck, for ClearMsg.
+func (w *world) submitClear(c *g7sig.Call, sess, epoch, seq uint64) {
 	clk := c.Submit(g7sig.ReqClear(sess, seq))
-	if w.clearSub[c] == nil {
-		w.clearSub[c] = map[uint64][]int64{}
+	if sess == epoch {
+		if w.clearSub[c] == nil {
+			w.clearSub[c] = map[uint64][]int64{}
+		}
+		w.clearSub[c][seq] = append(w.clearSub[c][seq], clk)
+	} else {
+		w.r.Count("clears_submitted_for_older_epoch", 1)
 	}
-	w.clearSub[c][seq] = append(w.clearSub[c][seq], clk)
-	w.logf("%s submits ClearMsg(%d) session_seqno=%d", w.cstr(c), seq, sess)
+	w.logf("%s submits ClearMsg(%d) session_seqno=%d (epoch %d)", w.cstr(c), seq, sess, epoch)
 	w.r.Count("clears_submitted", 1)
 }
 
@@ -573,6 +781,37 @@ func (w *world) submitClear(c *g7sig.Call, sess, seq uint64) {
 // forwarded correctly.
 func (w *world) checkForward() (forwardedOK int) {
 	calls := w.h.Calls()
+	// every forward needs its OWN submission: per directed pair and exact message
+	// bytes, the server may not forward more often than an authentic copy was
+	// submitted for the then-current epoch (a pending message is handed to the
+	// partner's stream at most once)
+	type fkey struct{ src, dst, enc string }
+	enc := func(m *signaling.SessionMsg) string { b, _ := m.MarshalVT(); return string(b) }
+	nSub, nFwd := map[fkey]int{}, map[fkey]int{}
+	for _, recs := range w.subs {
+		for _, rec := range recs {
+			if rec.honest && rec.sessSeqno == rec.epochAt {
+				nSub[fkey{rec.call.Src, rec.call.Dst, enc(rec.msg)}]++
+			}
+		}
+	}
+	for _, c := range calls {
+		if c.Listen {
+			continue
+		}
+		for _, it := range c.Outbox() {
+			if it.Kind == "recv" {
+				nFwd[fkey{c.Dst, c.Src, enc(it.Msg)}]++
+			}
+		}
+	}
+	for k, f := range nFwd {
+		if sub := nSub[k]; sub > 0 && f > sub {
+			w.violate("forward/more-often-than-submitted", fmt.Sprintf("%s->%s: one message was forwarded %d times but an authentic copy for the current epoch was submitted only %d time(s)", w.nick(k.src), w.nick(k.dst), f, sub))
+		} else if sub > 0 {
+			w.r.Count("c20_forward_multiplicity_checked", 1)
+		}
+	}
 	for _, c := range calls {
 		if c.Listen {
 			continue
